@@ -106,7 +106,7 @@ def hand_written_polls(crate):
 def check(ctx, rep):
     rep.rule('R05.a', 'Command::poll_next registers the host waker before running tasks or reading its channels', floor=3)
     rep.rule('R05.b', 'Wake impls publish (enqueue id, store woken) before they wake the parent; wake delegates to wake_by_ref', floor=5)
-    rep.rule('R05.c', 'every path of a hand-written poll that returns Pending has kept the waker or follows a delegated Pending', floor=7)
+    rep.rule('R05.c', 'every path of a hand-written poll that returns Pending has kept the waker or follows a delegated Pending', floor=5)
     rep.rule('R05.d', 'legacy shell futures check and register under one lock, which the resolve closure also takes', floor=4)
     rep.rule('R05.e', 'a legacy resolution takes and wakes the stored waker on every path after delivering', floor=2)
     core = ctx.crate('default', 'crux_core')
@@ -122,8 +122,10 @@ def check(ctx, rep):
         f = fs[0]
         cx = cx_param(f)
         regs = waker_capture_blocks(f, cx)
-        runs = [bb for bb, t in f.calls('crux_core::command::Command::run_until_settled')]
-        reads = [bb for bb, t in f.calls('crossbeam_channel::channel::Receiver::try_recv', 'crux_core::command::Command::is_done')]
+        from rules.common import Summaries
+        sm = Summaries([core])
+        runs = sm.sites(f, ['crux_core::command::Command::run_until_settled'], 'must')
+        reads = sm.sites(f, ['crossbeam_channel::channel::Receiver::try_recv', 'crux_core::command::Command::is_done'], 'may')
         rep.expect('R05.a', len(regs) >= 1 and runs and all(any(f.dominates(r, x) and r != x for r in regs) for x in runs),
                    'register-before-run', 'AtomicWaker::register(cx.waker()) dominates run_until_settled',
                    'Command::poll_next runs tasks before registering the host\'s waker (a wake during the run would be lost)')
